@@ -2,9 +2,11 @@
   C05 — XML export followed by import reproduces the topology (and is a fixpoint).
 
   Proved here, for all inputs, over the models of Hw.Io.Xml / Hw.Io.Base64 / Hw.Base.Num (tied to the C code byte for byte
-  by engine `xmlrt`): the byte-level building blocks of the round trip and the equivalence relation the round trip is
-  judged with.  The 3000-line object <-> attribute mapping of topology-xml.c and libxml2 are exercised, not modelled:
-  the round trip of whole topologies is established on the generated topologies of every run (tools/eng_xmlrt.py).
+  by engine `xmlrt`): the byte-level building blocks of the round trip, the equivalence relation the round trip is
+  judged with, the object level (one start tag, section (e)) and the tree level (nesting, child elements, the four child
+  lists, section (f)) of the v3 format.  Distances / memattrs / cpukinds / support elements, the v2-format flags and libxml2 are
+  exercised, not modelled: the round trip of whole topologies is established on the generated topologies of every run
+  (tools/eng_xmlrt.py).
 -/
 import Hw.Io.XmlLemmas
 import Hw.Io.Base64Lemmas
